@@ -3,7 +3,9 @@ import AioslskVerif.Proofs.Session
 # C16 — session life cycle: login advertises settings, loss resets, stop is final
 
 Property theorems over `Model/Session.lean` (the FIXED code: fixes/C16-*.patch).  All statements quantify over
-every configuration (unbounded sets of friends / interests / favourites) and every operation history.
+every configuration (unbounded sets of friends / interests / favourites) and every operation history — since
+round 5 histories in which the client has adopted a distributed parent and children, which survive a loss of the
+server connection: every login (first, manual, the watchdog's) announces the position the client has at THAT login.
 -/
 namespace AioslskVerif.Session
 open AioslskVerif.Generated
@@ -44,6 +46,103 @@ theorem C16_login_emits_burst (c : Config) (st : State) (hc : st.conn = .connect
     (step c st .login).2 = [.loginSent, .sessionInit, .frames (burst c (envOf c st)), .loginResult .ok] ∧
     (step c st .login).1.session = true := by
   simp [step, doLogin, hc, hs, hr, hp, ha]
+
+/-! ## the branch position: every login announces the position the client has at that login -/
+
+/-- The three distributed frames of a burst are exactly the client's branch position: for EVERY value, the burst
+    contains BranchLevel / BranchRoot / ToggleParentSearch with that value once if it is the position's, never
+    otherwise — whatever the parent in `e` is (none at a first login, the surviving one at a re-login). -/
+theorem C16_burst_position (c : Config) (e : Env) (h : c.WF) (n : Nat) (u : String) (b : Bool) :
+    (burst c e).count (.branchLevel n) = (if (positionOf c e).1 = n then 1 else 0) ∧
+    (burst c e).count (.branchRoot u) = (if (positionOf c e).2.1 = u then 1 else 0) ∧
+    (burst c e).count (.toggleParentSearch b) = (if (positionOf c e).2.2 = b then 1 else 0) := by
+  refine ⟨?_, ?_, ?_⟩ <;> rw [burst_count c e h] <;> rfl
+
+/-- what the position is (reading of distributed.py `_get_advertised_branch_values`): without a parent, or when the
+    parent's branch root is the client itself, level 0 of the client's own branch; else one level below the parent
+    in the parent's branch; a parent is searched for iff there is none and `debug.search_for_parent` -/
+theorem C16_position_values (c : Config) (st : State) :
+    position c st = (match st.parent with
+      | none => (0, c.username, c.searchForParent)
+      | some p => if p.root = c.username then (0, c.username, false) else (p.level + 1, p.root, false)) := by
+  cases hp : st.parent with
+  | none => simp [position, positionOf, envOf, branchValues, hp]
+  | some p =>
+    by_cases hr : p.root = c.username <;> simp [position, positionOf, envOf, branchValues, hp, hr]
+
+/-- A login in ANY reachable state — after any history of parents adopted, moved and lost, children, losses of the
+    server connection, reconnects — sends the burst computed from the parent the client has in that state, and the
+    new connection has been told the client's position. -/
+theorem C16_login_tells_position (c : Config) (ops : List Op) :
+    let st := (run c init ops).1
+    st.conn = .connected → st.session = false → st.reader = false → st.stopped = false → st.srvReply = .accepted →
+    (step c st .login).2 = [.loginSent, .sessionInit, .frames (burst c (envOf c st)), .loginResult .ok] ∧
+    (envOf c st).parent = st.parent.map (fun p => (p.root, p.level)) ∧
+    (step c st .login).1.told = some (position c st) ∧ (step c st .login).1.parent = st.parent := by
+  intro st hc hs hr hp ha
+  simp [step, doLogin, hc, hs, hr, hp, ha, envOf]
+
+/-- INVARIANT over all histories: whenever a session exists, the last BranchLevel / BranchRoot /
+    ToggleParentSearch the CURRENT server connection received describe the position the client has now.  (A
+    connection that is gone took what it was told with it: `closeServer` forgets `told`.) -/
+theorem C16_server_knows_position (c : Config) (ops : List Op) :
+    (run c init ops).1.session = true → (run c init ops).1.told = some (position c (run c init ops).1) :=
+  pinv_run c ops init inv_init (pinv_init c)
+
+/-- the share counts of a login's burst are those of the index AT THAT LOGIN: the counts of the last scan the
+    application has made since `start()` (`Op.rescan`), else those at `start()` — in any state -/
+theorem C16_burst_index (c : Config) (st : State) (h : c.WF) (d f : Nat) :
+    (burst c (envOf c st)).count (.sharedFoldersFiles d f) =
+      (if st.stats.getD (c.dirs, c.files) = (d, f) then 1 else 0) := by
+  rw [burst_count c _ h]
+  simp only [mustTell, envOf]
+  by_cases hx : st.stats.getD (c.dirs, c.files) = (d, f)
+  · simp [hx]
+  · have : ¬ ((st.stats.getD (c.dirs, c.files)).1 = d ∧ (st.stats.getD (c.dirs, c.files)).2 = f) := by
+      intro hh; exact hx (Prod.ext hh.1 hh.2)
+    simp [hx, this]
+
+/-- a loss of the server connection — any reason — leaves the distributed parent and the children alone -/
+theorem C16_loss_keeps_peers (c : Config) (st : State) (r : Reason) :
+    (step c st (.loss r)).1.parent = st.parent ∧ (step c st (.loss r)).1.children = st.children := by
+  simp only [step]
+  split
+  · exact ⟨(closeServer_keeps_peers r st).1, (closeServer_keeps_peers r st).2.1⟩
+  · exact ⟨rfl, rfl⟩
+
+/-- THE re-login law for the position, over every history: from any reachable state with a connected server
+    connection — whatever parent the client has adopted — an unrequested loss with `reconnect.auto`, followed by the
+    reconnect delay (+ one poll) with the server accepting, ends in a session whose burst was computed with the
+    parent the client had BEFORE the loss; the parent is still there and the new connection knows the position. -/
+theorem C16_relogin_tells_surviving_position (c : Config) (ops : List Op) (r : Reason) :
+    let st := (run c init ops).1
+    st.conn = .connected → r ≠ .connectFailed → ((r = .eof ∨ r = .readError) → st.reader = true) →
+    c.reconnectAuto = true → r ≠ .requested → r ≠ .eof → c.credsOk = true →
+    st.srvUp = true → st.srvReply = .accepted →
+    let res := run c st (.loss r :: List.replicate (reconnectTicks + 1) .tick)
+    Obs.frames (burst c (envOf c st)) ∈ res.2 ∧ res.1.session = true ∧ res.1.parent = st.parent ∧
+    res.1.told = some (position c st) := by
+  intro st hc hv hr ha hq he hk hup hrep res
+  have hw : WInv c st := winv_run c ops init (winv_init c) inv_init
+  obtain ⟨k1, k2, k3, _, _⟩ := closeServer_connected r st hc
+  have k6 := (closeServer_keeps_peers r st).1
+  have k7 : (closeServer r st).1.srvReply = st.srvReply := by simp [closeServer, hc]
+  have hidle : (closeServer r st).1.wd = .idle := by rw [k2]; simp [hq, he, hw.2 hc ha]
+  have k8 := (closeServer_keeps_peers r st).2.2
+  obtain ⟨s2, hs2, h3, h4, h5, h6⟩ := idle_reconnect_run c _ hidle k1 hk
+  have e1 : step c st (.loss r) = closeServer r st := by
+    simp only [step]; rw [if_pos ⟨hc, hv, hr⟩]
+  have hres : res = ((reconnect c s2).1, (closeServer r st).2 ++ (reconnect c s2).2) := by
+    show run c st (.loss r :: List.replicate (reconnectTicks + 1) .tick) = _
+    rw [run_cons, e1, hs2]
+  have hrr := reconnect_relogin c s2 (by rw [h3, k3]; exact hup) ha (by rw [h4, k7]; exact hrep)
+  have hpar : s2.parent = st.parent := by rw [h5, k6]
+  have henv : envOf c s2 = envOf c st := envOf_congr c s2 st hpar (by rw [h6, k8])
+  have hpos : position c s2 = position c st := position_congr c s2 st hpar
+  rw [hres]
+  refine ⟨List.mem_append_right _ (henv ▸ hrr.1), hrr.2.1, ?_, ?_⟩
+  · rw [hrr.2.2.1, hpar]
+  · rw [hrr.2.2.2, hpos]
 
 /-! ## commands are refused without a session -/
 
@@ -327,6 +426,37 @@ example :
     let r' := step exCfg r.1 .release
     r.1.session = true ∧ r.1.heldReaders = 1 ∧ (alive exCfg r.1).count .reader = 2 ∧
     r'.1.session = true ∧ r'.1.conn = .connected ∧ (alive exCfg r'.1).count .reader = 1 ∧ r'.2 = [] := by decide
+
+/-- the parent named by the server announces level 3 in the branch of "rootuser", a child joins; the server
+    connection is lost by a read error, the watchdog reconnects and logs in: parent and child are still there, the
+    burst of the SECOND login carries level 4 / "rootuser" / not searching, and that is what the new connection
+    knows (the hypotheses of `C16_relogin_tells_surviving_position` hold in a reachable state with a parent) -/
+example :
+    let pre : List Op := [.start, .login, .potentialParents, .parentAdopt "par0" "rootuser" 3, .childJoin]
+    let st := (run exCfg init pre).1
+    let r := run exCfg st (.loss .readError :: List.replicate 21 .tick)
+    st.conn = .connected ∧ st.srvUp = true ∧ st.srvReply = .accepted ∧ st.pp = [] ∧
+    st.parent = some ⟨"par0", "rootuser", 3⟩ ∧ st.told = some (4, "rootuser", false) ∧
+    r.1.session = true ∧ r.1.parent = st.parent ∧ r.1.children = 1 ∧ r.1.told = some (4, "rootuser", false) ∧
+    Frame.branchLevel 4 ∈ burst exCfg (envOf exCfg r.1) ∧ Frame.branchRoot "rootuser" ∈ burst exCfg (envOf exCfg r.1) ∧
+    Frame.toggleParentSearch false ∈ burst exCfg (envOf exCfg r.1) ∧
+    Obs.frames (burst exCfg (envOf exCfg st)) ∈ r.2 ∧ nInit r.2 = 1 := by decide
+
+/-- the parent moves and goes away while there is no session (requested disconnect): nothing can be sent; the manual
+    login that follows announces level 0 / own name / searching again; `stop()` closes the children -/
+example :
+    let r := run exCfg init [.start, .login, .parentAdopt "par0" "x" 0, .childJoin, .loss .requested, .parentLevel 2,
+      .parentLoss, .connect, .login]
+    r.1.session = true ∧ r.1.parent = none ∧ r.1.children = 1 ∧ r.1.told = some (0, "me", true) ∧
+    (alive exCfg r.1).count .reader = 2 ∧ alive exCfg (step exCfg r.1 .stop).1 = [] ∧
+    openSockets (step exCfg r.1 .stop).1 = 0 := by decide
+
+/-- the application scans again without a session (nothing can be reported): the re-login reports the new counts -/
+example :
+    let c : Config := { exCfg with shareDirs := 1, dirs := 1 }
+    let r := run c init ([.start, .login, .loss .readError, .rescan 1 5] ++ List.replicate 21 .tick)
+    r.1.session = true ∧ Frame.sharedFoldersFiles 1 5 ∈ burst c (envOf c r.1) ∧
+    Frame.sharedFoldersFiles 1 2 ∉ burst c (envOf c r.1) ∧ Obs.frames (burst c (envOf c r.1)) ∈ r.2 := by decide
 
 example : exCfg.WF := by decide
 
